@@ -430,6 +430,7 @@ def build(hash_type=1, flags=0, comp_type=0, chunk_hash_type=1, chunks=(), body=
     """Serialise any field assignment (including illegal ones) and re-seal the
     header checksum.  chunks: list of dicts/tuples (digest, udigest|None,
     comp_len, len); integer fields may be ints or Raw(bytes)."""
+    sealed_to_declared = header_digest is None
     ds = DIGEST_SIZE.get(hash_type, 32)
     idx = bytearray()
     idx += _ci(chunk_hash_type)
@@ -492,7 +493,12 @@ def build(hash_type=1, flags=0, comp_type=0, chunk_hash_type=1, chunks=(), body=
         except Exception:
             header_digest = bytes(ds)
     m = magic if magic is not None else (MAGIC_HDR if detached else MAGIC_FULL)
-    return m + bytes(lead0) + header_digest + rest + body + tail
+    img = m + bytes(lead0) + header_digest + rest + body + tail
+    if sealed_to_declared:
+        # seal over the bytes a reader will hash: the DECLARED header size, which may
+        # end inside the header or extend into the body
+        img = reseal(img) or img
+    return img
 
 
 def reseal(data):
